@@ -237,6 +237,16 @@ def step (st : St) (w : List String) : St × String :=
   | ["render"] => match renderScene st.raw.toScene with
       | some p => ({ st with frame := some p.frame, ps := some p }, "ok ; " ++ hexN 8 (frameHash p.frame))
       | none => ({ st with frame := none, ps := none }, "crash")
+  | ["offon", ks] => match st.ps, ks.toNat? with
+      | some p0, some k =>
+        let sc := st.raw.toScene
+        if !(Tetro.Model.Render.enabled sc) then (st, "none") else
+        -- k more cycles, LCD off and on again (the per-object flags and the frame buffer survive), ONE frame
+        match (Tetro.Model.Render.run sc k p0).bind fun p1 =>
+              Tetro.Model.Render.run sc 17554 (afterEnable p1.overlaps p1.frame) with
+        | some p => ({ st with frame := some p.frame, ps := some p }, "ok ; " ++ hexN 8 (frameHash p.frame))
+        | none => ({ st with frame := none, ps := none }, "crash")
+      | _, _ => (st, "none")
   | ["next"] => match st.ps with
       | none => (st, "none")
       | some p0 =>
